@@ -1280,7 +1280,7 @@ void CheckCondition::checkIncorrectLogicOperator()
             // Opposite comparisons around || or && => always true or always false
             const bool isLogicalOr(tok->str() == "||");
             if (!isfloat && isOppositeCond(isLogicalOr, tok->astOperand1(), tok->astOperand2(), *mSettings, true, true, &errorPath)) {
-                if (!isIfConstexpr(tok)) {
+                if (printWarning && !isIfConstexpr(tok)) {
                     const bool alwaysTrue(isLogicalOr);
                     incorrectLogicOperatorError(tok, conditionString(tok), alwaysTrue, inconclusive, std::move(errorPath));
                 }
